@@ -13,7 +13,9 @@ re-implementations in `crates/osutils-py`).
   and `osutils-py: PyChunksToLinesIterator` (what `osutils.split_lines` /
   `osutils.chunks_to_lines` actually run), all three literal.
 * dates: `time.rs: format_highres_date / unpack_highres_date` over integer
-  nanoseconds.  The calendar (`chrono`'s `%a %Y-%m-%d %H:%M:%S` formatter and
+  nanoseconds, and `format_highres_date` over arbitrary f64 timestamps (dyadic
+  rationals; the IEEE subtraction `t - t.floor()` and the exact `{:.9}`
+  rounding are modelled).  The calendar (`chrono`'s `%a %Y-%m-%d %H:%M:%S` formatter and
   parser, an external library) is specified by a proleptic-Gregorian
   days↔civil conversion and compared with chrono on every run.
 -/
@@ -307,30 +309,67 @@ def inRange (secs : Int) : Bool :=
 def tdiv (a b : Int) : Int := if a ≥ 0 then a / b else -((-a) / b)
 def tmod (a b : Int) : Int := if a ≥ 0 then a % b else -((-a) % b)
 
-/-- Rust `{:+03}` -/
-def fmtPlus03 (n : Int) : List Char :=
-  if n ≥ 0 then '+' :: padAtLeast 2 n.toNat else '-' :: padAtLeast 2 (-n).toNat
-
-/-- Rust `{:02}` of a possibly negative number: the sign counts towards the width -/
-def fmt02 (n : Int) : List Char :=
-  if n ≥ 0 then padAtLeast 2 n.toNat else '-' :: padAtLeast 1 (-n).toNat
-
 def assemble (secs : Int) (frac : Nat) (offStr : List Char) : List Char :=
   fmtWeekday secs ++ [' '] ++ fmtBase secs ++ ['.'] ++ padNat 9 frac ++ [' '] ++ offStr
 
-/-- `format_highres_date(t, offset)` as written in `time.rs` (t in integer
-nanoseconds): `t as i64` truncates towards zero while `t - t.floor()` is taken
-from the floor; the offset is printed from truncating `/` and `%`. -/
-def formatHighres (nanos offset : Int) : List Char :=
-  assemble (tdiv nanos 1000000000 + offset) (nanos % 1000000000).toNat
-    (fmtPlus03 (tdiv offset 3600) ++ fmt02 (tmod (tdiv offset 60) 60))
-
-/-- the intended behaviour (and the proposed patch): seconds from the floor,
-offset printed as sign, |hours|, |minutes| -/
-def formatHighresFixed (nanos offset : Int) : List Char :=
+/-- `format_highres_date(t, offset)` of `time.rs` (since 1e2630f) for a
+timestamp that is a whole number of nanoseconds `nanos` (there the f64
+arithmetic and the 9 printed digits are exact): seconds and fraction both from
+the floor, offset printed as sign, |hours|, |minutes|. -/
+def formatHighresNs (nanos offset : Int) : List Char :=
   assemble (nanos / 1000000000 + offset) (nanos % 1000000000).toNat
     ((if offset < 0 then '-' else '+') :: (padAtLeast 2 (offset.natAbs / 3600)
       ++ padAtLeast 2 (offset.natAbs / 60 % 60)))
+
+/-! ### arbitrary f64 timestamps
+
+A finite f64 is a dyadic rational `num / 2^k` (`num : Int`, what Python's
+`float.as_integer_ratio` returns).  `t.floor()` is exact; `t - t.floor()` is
+one IEEE subtraction (round to nearest, ties to even, 53 significant bits);
+`format!("{:.9}", x)` prints the exactly rounded (ties to even) 9-digit
+decimal of the exact value of `x`. -/
+
+/-- smallest `sh ≤ fuel` with `n / 2^sh < 2^53` -/
+def shiftFor : Nat → Nat → Nat
+  | 0, _ => 0
+  | f + 1, n => if n < 2 ^ 53 then 0 else shiftFor f (n / 2) + 1
+
+/-- IEEE round-to-nearest-even of `n / 2^k` (0 ≤ n < 2^k) to 53 significant
+bits; the result is again a numerator over `2^k` -/
+def roundF64 (k n : Nat) : Nat :=
+  let sh := shiftFor k n
+  if sh = 0 then n else
+    let q := n / 2 ^ sh
+    let r := n % 2 ^ sh
+    (if 2 ^ (sh - 1) < r ∨ (r = 2 ^ (sh - 1) ∧ q % 2 = 1) then q + 1 else q) * 2 ^ sh
+
+/-- `{:.9}`: `n / 2^k` rounded to a whole number of 10⁻⁹ units, ties to even -/
+def round9 (k n : Nat) : Nat :=
+  let q := n * 1000000000 / 2 ^ k
+  let r := n * 1000000000 % 2 ^ k
+  if 2 ^ k < 2 * r ∨ (2 * r = 2 ^ k ∧ q % 2 = 1) then q + 1 else q
+
+/-- the f64 value `t - t.floor()` as a numerator over `2^k` -/
+def fracF64 (num : Int) (k : Nat) : Nat := roundF64 k (num % ((2 ^ k : Nat) : Int)).toNat
+
+/-- the 9-digit rounding of the fraction, `0 ..= 10^9`; `10^9` is the string `1.000000000` -/
+def fracUnits (num : Int) (k : Nat) : Nat := round9 k (fracF64 num k)
+
+def offsetStr (offset : Int) : List Char :=
+  (if offset < 0 then '-' else '+') :: (padAtLeast 2 (offset.natAbs / 3600)
+      ++ padAtLeast 2 (offset.natAbs / 60 % 60))
+
+/-- `format_highres_date(t, offset)` **as written** for the f64 `t = num / 2^k`:
+`format!("{:.9}", t - t.floor())[1..]` drops the integer digit of the rounded
+fraction, so `1.000000000` is printed as `.000000000` and the seconds are not
+advanced. -/
+def formatHighresF64 (num : Int) (k : Nat) (offset : Int) : List Char :=
+  assemble (num / ((2 ^ k : Nat) : Int) + offset) (fracUnits num k % 1000000000) (offsetStr offset)
+
+/-- the proposed patch: when the fraction rounds up to `1.000000000` the second is carried -/
+def formatHighresF64Carry (num : Int) (k : Nat) (offset : Int) : List Char :=
+  assemble (num / ((2 ^ k : Nat) : Int) + (if 1000000000 ≤ fracUnits num k then 1 else 0) + offset)
+    (fracUnits num k % 1000000000) (offsetStr offset)
 
 inductive DateErr where
   | noWeekday | badWeekday | noFraction | noTimezone | badDatetime | badFraction | badOffset
